@@ -1,3 +1,5 @@
 pub mod c02;
 pub mod c03;
+pub mod c04;
 pub mod c11;
+pub mod c12;
